@@ -1438,7 +1438,7 @@ static double to_double(const char *ddigits, int scale) {
              * (2 + DBL_MIN_10_EXP - DBL_DIG) - CIF_LINE_LENGTH
              */
 #define     DBL_MANT_10_DIG (3 * (DBL_MANT_DIG  / 10))
-#define     ULT_LSP_ALT1 ((DBL_MANT_10_DIG + DBL_MANT_DIG - CIF_LINE_LENGTH) \
+#define     ULT_LSP_ALT1 ((DBL_MANT_DIG - CIF_LINE_LENGTH) \
                     - (((DBL_MAX_10_EXP + 1) * 2322) / 1000))
 #define     ULT_LSP_ALT2 ((2 + DBL_MIN_10_EXP - DBL_DIG) - CIF_LINE_LENGTH)
 #if (ULT_LSP_ALT1 < ULT_LSP_ALT2)
